@@ -177,7 +177,11 @@ class Rational(Primitive):
                 result = impl(self._value, right._value)
             except ZeroDivisionError:
                 raise _any.InvalidOperandError("Cannot divide %s by zero" % self._value) from None
+            except OverflowError:
+                raise _any.InvalidOperandError("The result of the operation is too large to be represented") from None
             else:
+                if isinstance(result, complex):
+                    raise _any.InvalidOperandError("The result of the operation is not a real number")
                 return Rational(result)
         else:
             raise _any.UndefinedOperatorError
